@@ -401,6 +401,149 @@ def _h_mitm(direction, how, late):
     return ['mitm', 'established']
 
 
+# ---- the wrapper around the signature library (crypto.RsaPublicKey): public keys of every kind load_pem_public_key() returns
+KEY_KINDS = ('rsa', 'ec', 'ed25519', 'ed448', 'dsa', 'x25519')
+
+
+def _key_abcs():
+    from cryptography.hazmat.primitives.asymmetric import rsa, ec, ed25519, ed448, dsa, x25519
+    return {'rsa': rsa.RSAPublicKey, 'ec': ec.EllipticCurvePublicKey, 'ed25519': ed25519.Ed25519PublicKey, 'ed448': ed448.Ed448PublicKey,
+            'dsa': dsa.DSAPublicKey, 'x25519': x25519.X25519PublicKey}
+
+
+class ModelKey:
+    """a public key object of the cryptography library, by documented contract: verify() takes exactly the arguments of its kind (anything else is a
+    TypeError), returns None when the signature is the (deterministic, collision-free, uninterpreted) signature of the data under this key and
+    scheme, and raises InvalidSignature otherwise; key-exchange keys have no verify()"""
+    ARGS = {'rsa': ('padding', 'hash'), 'ec': ('ecdsa',), 'ed25519': (), 'ed448': (), 'dsa': ('hash',)}
+
+    def __init__(self, kind, uf):
+        self.kind, self.uf, self.verified = kind, uf, []
+
+    def scheme(self, extra):
+        return (self.kind + '/' + '/'.join(type(x).__name__ + ':' + (getattr(getattr(x, 'algorithm', x), 'name', '') or '') for x in extra)).encode()
+
+    def __getattr__(self, name):
+        if name == 'verify' and self.kind in self.ARGS:
+            return self._verify
+        raise AttributeError(name)
+
+    def _verify(self, signature, data, *extra):
+        from symx import core
+        from cryptography.exceptions import InvalidSignature
+        from cryptography.hazmat.primitives.asymmetric import padding, ec
+        from cryptography.hazmat.primitives import hashes
+        want = self.ARGS[self.kind]
+        if len(extra) != len(want):
+            raise TypeError(f'{self.kind} verify() takes {2 + len(want)} positional arguments but {2 + len(extra)} were given')
+        for x, w in zip(extra, want):
+            ok = {'padding': isinstance(x, padding.AsymmetricPadding), 'hash': isinstance(x, hashes.HashAlgorithm),
+                  'ecdsa': isinstance(x, ec.EllipticCurveSignatureAlgorithm)}[w]
+            if not ok:
+                raise TypeError(f'{self.kind} verify(): unexpected argument {type(x).__name__}')
+        s = core.SymBytes.lift(signature)
+        good = self.uf(len(s), self.scheme(extra), data)
+        if not bool(s == good):
+            raise InvalidSignature()
+        self.verified.append((s, core.SymBytes.lift(data), self.scheme(extra)))
+
+
+_MODEL_CLASSES = {}
+
+
+def _model_key_class(kind):
+    """one model class per kind, registered with the library's abstract class of that kind (isinstance() dispatch in the code under test works)"""
+    if kind not in _MODEL_CLASSES:
+        cls = type(f'ModelKey_{kind}', (ModelKey,), {})
+        _key_abcs()[kind].register(cls)
+        _MODEL_CLASSES[kind] = cls
+    return _MODEL_CLASSES[kind]
+
+
+def _real_key(kind):
+    """native replay: a real public key of this kind"""
+    from cryptography.hazmat.primitives.asymmetric import rsa, ec, ed25519, ed448, dsa, x25519
+    priv = {'rsa': lambda: rsa.generate_private_key(65537, 1024), 'ec': lambda: ec.generate_private_key(ec.SECP256R1()),
+            'ed25519': ed25519.Ed25519PrivateKey.generate, 'ed448': ed448.Ed448PrivateKey.generate,
+            'dsa': lambda: dsa.generate_private_key(1024), 'x25519': x25519.X25519PrivateKey.generate}[kind]()
+    return priv.public_key()
+
+
+def _real_valid(kind, key, signature, data):
+    """native replay: is `signature` a valid signature of `data` under `key` (the scheme of its kind, SHA-256)?"""
+    from cryptography.exceptions import InvalidSignature
+    from cryptography.hazmat.primitives.asymmetric import padding, ec
+    from cryptography.hazmat.primitives import hashes
+    args = {'rsa': (padding.PKCS1v15(), hashes.SHA256()), 'ec': (ec.ECDSA(hashes.SHA256()),), 'ed25519': (), 'ed448': (), 'dsa': (hashes.SHA256(),)}.get(kind)
+    if args is None:
+        return False
+    try:
+        key.verify(bytes(signature), bytes(data), *args)
+        return True
+    except InvalidSignature:
+        return False
+
+
+def h_pubkey(role, kind, auth_len):
+    """the peer's configured public key is a key of `kind` (everything the PEM loader of the configuration accepts) inside the REAL crypto.RsaPublicKey
+    wrapper; IKE_AUTH arrives with the configured identity, an arbitrary method byte and ARBITRARY AUTH octets: established / CHILD_SA installed
+    only if the key's own verification ran on exactly the RFC 7296 2.15 octets and accepted these AUTH octets"""
+    from symx import core, shims
+    eng = core.engine()
+    shims.HMAC_UF.injective = True
+    m, ik, cr = MODS['message'], MODS['ikesa'], MODS['crypto']
+    S = ik.IkeSa.State
+    p = world.Pair()
+    m3 = p.send('A', p.send('B', p.init_req()))
+    if role == 'responder':
+        me, E = p.b, p.B
+        genuine = m.Message.parse(bytes(m3), crypto=me.peer_crypto)
+        own_init, nonce_mine = me.ike_sa_init_req_data, m.Message.parse(bytes(me.ike_sa_init_res_data)).get_payload(m.Payload.Type.NONCE).nonce
+        id_t, exch_resp = m.Payload.Type.IDi, False
+    else:
+        m4 = p.send('B', m3)
+        me, E = p.a, p.A
+        genuine = m.Message.parse(bytes(m4), crypto=me.peer_crypto)
+        own_init, nonce_mine = me.ike_sa_init_res_data, m.Message.parse(bytes(me.ike_sa_init_req_data)).get_payload(m.Payload.Type.NONCE).nonce
+        id_t, exch_resp = m.Payload.Type.IDr, True
+    native = isinstance(eng, core.ReplayEngine)
+    sig_uf = shims.UF('signature', injective=True)
+    if native:
+        key = _real_key(kind)
+    else:
+        key = _model_key_class(kind)(kind, sig_uf)
+    wrapper = cr.RsaPublicKey.__new__(cr.RsaPublicKey)
+    wrapper.key = key
+    set_auth(me, 'peer_auth', pubkey=wrapper, psk=None)
+    method = eng.sym_int('method', 0, 255)
+    auth_data = eng.sym_bytes('auth_data', auth_len)
+    authp = m.PayloadAUTH(1, auth_data)
+    authp.method = core.SymEnumVal(method.t) if not isinstance(method, int) else m.PayloadAUTH.Method(method)
+    enc = [authp if x.type == m.Payload.Type.AUTH else x for x in genuine.encrypted_payloads]
+    idp = next(x for x in enc if x.type == id_t)
+    msg = m.Message(spi_i=me.spi_i, spi_r=me.spi_r, major=2, minor=0, exchange_type=35, is_response=exch_resp, can_use_higher_version=False,
+                    is_initiator=not me.is_initiator, message_id=1, payloads=[], encrypted_payloads=enc)
+    msg.is_protected = True
+    klog0 = len(E.kernel.log)
+    c11.deliver_object(me, E, msg)
+    installed = any(x['op'] == 'NEWSA' for x in E.kernel.log[klog0:])
+    accepted = me.state == S.ESTABLISHED or installed or bool(me.child_sas) or (role == 'initiator' and me.state == S.DEL_CHILD_REQ_SENT)
+    if not accepted:
+        return ['pubkey', role, kind, 'refused']
+    _, octets = spec_auth(b'', own_init, nonce_mine, idp.to_bytes(), me.peer_crypto.sk_p)
+    what = f'{role} with a configured {kind} public key established (or installed a CHILD_SA)'
+    if native:
+        if not _real_valid(kind, key, auth_data, bytes(octets) if not isinstance(octets, (bytes, bytearray)) else octets):
+            return {'class': ['pubkey', role, kind, 'accepted'], 'violation': f'{what} although the AUTH octets are not a valid signature of the RFC 7296 2.15 octets under that key'}
+        return ['pubkey', role, kind, 'accepted']
+    eng.prove(method == 1, f'{what} with an AUTH method other than digital signature')
+    ok = False
+    for s, d, scheme in key.verified:
+        ok = core.sym_or(ok, core.sym_and(s == auth_data if len(s) == auth_len else False, d == octets if len(d) == len(core.SymBytes.lift(octets)) else False))
+    eng.prove(ok, f'{what} although the AUTH octets are not a valid signature of the RFC 7296 2.15 octets under that key')
+    return ['pubkey', role, kind, 'accepted']
+
+
 def build_instances(tier):
     inst = []
     nat = common.native_of
@@ -434,6 +577,10 @@ def build_instances(tier):
                 inst.append(Instance(f'mitm {direction} {how} late={late}', h_mitm, (direction, how, late), native=nat(h_mitm)))
     inst.append(Instance('mitm request none late=genuine', h_mitm, ('request', 'none', 'genuine'), native=nat(h_mitm),
                          must_reach=[('established', lambda o: o == ['mitm', 'established'])]))
+    for role in ('responder', 'initiator'):
+        for kind in KEY_KINDS:
+            for n in ((64, 128) if tier == 'quick' else (0, 32, 64, 72, 114, 128, 256)):
+                inst.append(Instance(f'pubkey {role} {kind} auth_len={n}', h_pubkey, (role, kind, n), pin=('method',)))
     for ak in ('psk', 'rsa'):
         inst.append(Instance(f'sign {ak}', h_sign, (ak,), engine_kw={'max_ticks': 10 ** 7}))
     inst.append(Instance('credential / identity mismatch', h_mismatch, (), engine_kw={'max_ticks': 10 ** 7},
